@@ -669,6 +669,12 @@ def gen_rt(rng, N, nmax=6, faults=None):
     out = []
     for _ in range(N):
         g, E = gen.gen_graph(rng, 1, nmax)
+        if rng.random() < 0.12:
+            # degenerate stream ("all multigraphs"): the empty graph, isolated vertices, disconnected graphs
+            n0 = rng.choice([0, 0, 1, 2, 3, 4])
+            pairs = [(a, b) for a in range(n0) for b in range(a + 1, n0)]
+            E = {pq: rng.randint(1, 3) for pq in pairs if rng.random() < 0.3}
+            g = {"n": n0, "edges": [[a, b, k] if rng.random() < 0.5 else [b, a, k] for (a, b), k in E.items()], "_kind": "degenerate", "_genus": None}
         n = g["n"]
         style = rng.choice(["v", "letters", "unicode", "long", "blanks", "digits", "mixed", "hostile"])
         if style == "hostile":
